@@ -51,6 +51,10 @@ def presentations(at, tier, seed):
     out.append(("rot.g0", present.rotate(s, gr[0])))
     out.append(("trans", present.translate(s, np.array([1.7, -2.3, 0.9]))))
     out.append(("perm.rev", present.permute(s, list(range(n))[::-1])))
+    if not all(s.pbc):
+        # rigid translation that leaves the cell along the non-periodic direction (no wrapping is possible there)
+        k = [i for i in range(3) if not s.pbc[i]][0]
+        out.append(("trans.out", present.translate(s, -1.3 * s.cell[k] + np.array([0.4, 0.3, 0.0]))))
     if tier != "quick":
         for row in range(4):
             for amp in (0.02, 0.05):
